@@ -47,6 +47,10 @@ pub fn install_panic_hook() {
         PANICS.with(|p| p.borrow_mut().push(msg));
     }));
     install_crash_oracle();
+    // governor's default clock (quanta) calibrates its cycle counter against the monotonic clock
+    // on first use, by spinning until enough time has passed: that must happen here, on real
+    // time, not on a simulation thread whose monotonic clock only moves with the simulation
+    let _ = governor::clock::Clock::now(&governor::clock::QuantaClock::default());
 }
 
 // ---------------------------------------------------------------------------------------------
@@ -147,6 +151,7 @@ pub fn execute(scen: &'static Scenario, input: RunInput) -> RunOutput {
     CURRENT.with(|c| *c.borrow_mut() = Some((scen, input.clone())));
     AFTER_TEARDOWN.with(|a| a.borrow_mut().clear());
     anemo::verif::set_active(true);
+    crate::vclock::activate();
     let rt = tokio::runtime::Builder::new_current_thread()
         .enable_time()
         .start_paused(true)
@@ -176,6 +181,7 @@ pub fn execute(scen: &'static Scenario, input: RunInput) -> RunOutput {
         }
     }));
     anemo::verif::set_active(false);
+    crate::vclock::deactivate();
     CURRENT.with(|c| *c.borrow_mut() = None);
     let panics = take_panics();
     let mut out = match result {
@@ -316,8 +322,33 @@ struct Heartbeat {
     started: Mutex<Option<(Instant, u64, u64)>>, // (when, index, seed)
 }
 
+/// The monotonic-clock seam must be in effect (it depends on how the binary was linked): ten
+/// virtual seconds must pass on `std::time::Instant` while (almost) no real time does.
+pub fn verify_clock_seam() -> Result<(), String> {
+    let real0 = std::time::Instant::now();
+    crate::vclock::activate();
+    let rt = tokio::runtime::Builder::new_current_thread().enable_time().start_paused(true).build().unwrap();
+    let a = std::time::Instant::now();
+    rt.block_on(async { tokio::time::sleep(Duration::from_secs(10)).await });
+    let virt = a.elapsed();
+    drop(rt);
+    crate::vclock::deactivate();
+    let real = real0.elapsed();
+    if virt != Duration::from_secs(10) && virt != Duration::from_millis(10_001) {
+        return Err(format!("std::time::Instant does not follow simulated time: 10 s of simulated sleep measured as {virt:?}"));
+    }
+    if real > Duration::from_secs(5) {
+        return Err(format!("the real clock is not readable outside runs: measured {real:?}"));
+    }
+    Ok(())
+}
+
 pub fn run_batch(scens: &[&'static Scenario], opts: &BatchOpts) -> BatchResult {
     install_panic_hook();
+    if let Err(e) = verify_clock_seam() {
+        eprintln!("HARNESS ERROR: {e}");
+        std::process::exit(2);
+    }
     set_crash_dir(&opts.verif_dir);
     let id = scens[0].id;
     let known = load_known_findings(&format!("{}/known_findings.txt", opts.verif_dir));
